@@ -178,6 +178,7 @@ static void gen_addr(Node *node) {
     break;
   case ND_ASSIGN:
   case ND_COND:
+  case ND_STMT_EXPR:
     if (node->ty->kind == TY_STRUCT || node->ty->kind == TY_UNION) {
       gen_expr(node);
       return;
